@@ -165,6 +165,25 @@ def run_block(case):
            for j in range(ml + 1)]
     if [[fr(v) for v in row] for row in lm] != exp:
       return bad("lag_matrix", "lag_matrix is not the plain covariance table", exp, lm)
+  # the same buffer object rewritten in place between two calls (frame-by-frame reuse):
+  # results must follow the contents, not the object
+  if N >= 2:
+    buf = list(qb)
+    new = [Q(v) for v in ([blk[-1] + 1] + blk[:-1])]
+    for ml in (N - 1, max(N - 2, 0)):
+      lag_matrix(buf, ml); acorr(buf, ml)
+      buf[:] = new
+      nb = [v.f for v in new]
+      exp = [[sum((nb[n - i] * nb[n - j] for n in range(ml, N)), F(0)) for i in range(ml + 1)]
+             for j in range(ml + 1)]
+      if [[fr(v) for v in row] for row in lag_matrix(buf, ml)] != exp:
+        return bad("lag_matrix:reused-buffer", "lag_matrix of a buffer rewritten in place must follow its contents",
+                   exp, lag_matrix(buf, ml))
+      exp = [sum((nb[n] * nb[n + t] for n in range(N - t)), F(0)) for t in range(ml + 1)]
+      if [fr(v) for v in acorr(buf, ml)] != exp:
+        return bad("acorr:reused-buffer", "acorr of a buffer rewritten in place must follow its contents",
+                   exp, acorr(buf, ml))
+      buf[:] = qb
   try:
     lag_matrix(qb, N)
     return bad("lag_matrix:order", "max_lag >= len(blk) must be refused", "ValueError", "returned")
@@ -218,10 +237,16 @@ def run_kcovar(case):
   qb = qs(blk)
   outcomes = []
   nt = False
+  buf = [Q(v + 1) for v in blk]          # previous frame held by the same list object
   for order in [None] + list(range(1, N)):
     p = N - 1 if order is None else order
     try:
-      filt = lpc.kcovar(qb) if order is None else lpc.kcovar(qb, order)
+      lpc.kcovar(buf) if order is None else lpc.kcovar(buf, order)
+    except Exception:
+      pass
+    buf[:] = qb                            # the frame is rewritten in place
+    try:
+      filt = lpc.kcovar(buf) if order is None else lpc.kcovar(buf, order)
     except ValueError:
       outcomes.append("unstable")
       continue
@@ -230,6 +255,7 @@ def run_kcovar(case):
       continue
     except Exception as exc:
       return bad("kcovar:exception:" + type(exc).__name__, "lpc.kcovar raised", None, str(exc)[:200])
+    buf[:] = [Q(v + 1) for v in blk]
     outcomes.append("ok")
     nt = True
     a = numer(filt)
